@@ -164,7 +164,9 @@ MOLS = ['CCO', 'CCBr', 'BrCCBr', 'CC(Br)CO', 'COC', 'CCOCC', 'CC(O)N', 'CCN', 'C
         'BrC(Br)C', 'CC(C)(C)O', 'OCCO', 'c1ccccc1CBr', 'NCCO', 'C/C=C/CBr', 'CC(N)=O.CO', 'CCC(Cl)CC', 'N[C@@H](C)C(=O)O', 'O=C(N)c1ccccc1', 'CNC(C)=O', 'COC(C)OC',
         'BrC/C=C/C', 'C/C=C\\CBr', 'BrC/C=C\\C', 'C/C=C/C(Br)C', 'C/C(=C\\C)CBr', 'C/C=C/C=C/CBr', 'C[C@H](F)/C=C/CBr',
         # labelled centres the template does not name, sitting where the text closes / opens a ring or two rings (stored neighbour order differs from the string order)
-        'C1CCCO[C@@H]1CBr', 'BrC[C@H]1CCCCO1', 'OC[C@H]1O[C@H](O)[C@H](O)[C@@H](O)[C@@H]1O', 'C1C[C@@]2(CBr)CC[C@H]1C2', 'BrC[C@@]12CC[C@@H](C1)CO2', 'C[C@]12CCC(CBr)[C@@H]1C2', 'OC1CC[C@@H]2C[C@H]1CO2']
+        'C1CCCO[C@@H]1CBr', 'BrC[C@H]1CCCCO1', 'OC[C@H]1O[C@H](O)[C@H](O)[C@@H](O)[C@@H]1O', 'C1C[C@@]2(CBr)CC[C@H]1C2', 'BrC[C@@]12CC[C@@H](C1)CO2', 'C[C@]12CCC(CBr)[C@@H]1C2', 'OC1CC[C@@H]2C[C@H]1CO2',
+        # labelled allenes the templates leave alone (added after seed C16-h1)
+        'CC=[C@]=CCBr', 'BrCC=[C@@]=CC', 'CC=[C@]=C(C)CO', 'C[C@H](CBr)C=[C@]=CC']
 
 
 def run_transformer(shard):
